@@ -17,7 +17,7 @@ var aqDims = []dim{
 	{"subject", []string{"alice", "no-nameid", "unknown-user", "bob"}},
 	{"requested", []string{"none", "email", "email+username", "wrong-name", "wrong-format", "duplicate", "custom", "mixed"}},
 	{"destination", []string{"absent", "attribute-service", "sso-location", "foreign"}},
-	{"signature", []string{"none", "valid", "tampered", "foreign-key", "empty-value", "valid-nokeyinfo", "tampered-nokeyinfo"}},
+	{"signature", []string{"none", "valid", "tampered", "foreign-key", "empty-value", "valid-nokeyinfo", "tampered-nokeyinfo", "wrapped-header", "wrapped-body"}},
 	{"user", []string{"full", "custom", "minimal", "hostile"}},
 	{"lookup", []string{"ok", "fail"}},
 	{"userinfo", []string{"ok", "fail"}},
@@ -152,6 +152,7 @@ func runAq(c Case) *AqRun {
 	}
 	fmt.Fprintf(&q, `</%sAttributeQuery>`, p)
 	query := q.String()
+	wrappedOriginal := ""
 	switch c["signature"] {
 	case "valid":
 		query, err = cachedEnveloped(query, spKeys, algRSASHA256, true, "")
@@ -163,6 +164,19 @@ func runAq(c Case) *AqRun {
 		query, err = cachedEnveloped(query, foreignKeys, algRSASHA256, true, "")
 	case "valid-nokeyinfo":
 		query, err = cachedEnveloped(query, spKeys, algRSASHA256, false, "")
+	case "wrapped-body":
+		// the genuinely signed query comes first in the body, a changed copy second (a struct decoder keeps the last)
+		query, err = cachedEnveloped(query, spKeys, algRSASHA256, true, "")
+		orig := strings.TrimPrefix(query, `<?xml version="1.0" encoding="UTF-8"?>`)
+		query = orig + strings.Replace(orig, "aq-4711", "aq-4712", 1)
+		r.QueryID = "aq-4712"
+	case "wrapped-header":
+		// signature wrapping: the genuinely signed query travels in the SOAP header, the body carries a copy whose
+		// content was changed (it still carries the signature element, which does not verify over the changed content)
+		query, err = cachedEnveloped(query, spKeys, algRSASHA256, true, "")
+		wrappedOriginal = strings.TrimPrefix(query, `<?xml version="1.0" encoding="UTF-8"?>`)
+		query = strings.Replace(query, "aq-4711", "aq-4712", 1)
+		r.QueryID = "aq-4712"
 	case "tampered-nokeyinfo":
 		// ds:KeyInfo is optional; the query is changed after signing (another subject's data is asked for)
 		query, err = cachedEnveloped(query, spKeys, algRSASHA256, false, "")
@@ -187,7 +201,11 @@ func runAq(c Case) *AqRun {
 	body := ""
 	switch c["envelope"] {
 	case "ok":
-		body = `<soap:Envelope xmlns:soap="http://schemas.xmlsoap.org/soap/envelope/"` + nsOnEnvelope + `><soap:Body>` + query + `</soap:Body></soap:Envelope>`
+		hdr := ""
+		if wrappedOriginal != "" {
+			hdr = `<soap:Header>` + wrappedOriginal + `</soap:Header>`
+		}
+		body = `<soap:Envelope xmlns:soap="http://schemas.xmlsoap.org/soap/envelope/"` + nsOnEnvelope + `>` + hdr + `<soap:Body>` + query + `</soap:Body></soap:Envelope>`
 	case "no-query":
 		body = `<soap:Envelope xmlns:soap="http://schemas.xmlsoap.org/soap/envelope/"><soap:Body></soap:Body></soap:Envelope>`
 	case "notxml":
@@ -280,7 +298,7 @@ func monC12(c *Ctx, r *AqRun) {
 		bad("answered although the Issuer is not a registered service provider", "guard-issuer")
 	}
 	switch cs["signature"] {
-	case "tampered", "foreign-key", "tampered-nokeyinfo":
+	case "tampered", "foreign-key", "tampered-nokeyinfo", "wrapped-header", "wrapped-body":
 		bad("answered although the signature carried by the query does not verify under the registered certificate", "guard-signature:"+cs["signature"])
 	case "valid", "valid-nokeyinfo":
 		if cs["spcerts"] == "none" {
